@@ -20,6 +20,7 @@ func vrfMetric(p int, valid bool) *api.Metric {
 // table are only touched under their mutexes.
 func VrfC18Metrics() {
 	DefaultWindowCap = 2
+	AlertChannelCap = 1 // so that the "alert channel full" path is reached by the second alert
 	st := NewStore()
 	mc := NewChecker(context.Background(), st, 3.0)
 	n := vrf_choice("metrics_before", 3)
@@ -91,6 +92,7 @@ func VrfC18Metrics() {
 		}
 	case 10:
 		mc.alert(vrfP[0], "ping")
+		mc.alert(vrfP[1], "ping") // nobody reads the alerts: the channel is full now
 		mc.alert(vrfP[0], "ping")
 	}
 	vrf_assert(vrf_locks_held() == 0, "C18.metrics.locks-released")
